@@ -322,6 +322,10 @@ def engage_rule(chk, db):
         chk.analysis_broken("ENGAGE: only %d optional members take another optional (floor 6)" % n)
 
 
+META_EXTRA = "ENGAGE (optional from optional: target ends in the source's engagement state; the source is dereferenced only where tested)."
+META = (META[0] + " " + META_EXTRA, META[1])
+
+
 def run(chk, tier):
     db = D.load("checks")
     nrel = rel.check(chk, db, ["_optional/optional.hpp", "_variant/variant.hpp", "_expected/unexpected.hpp"])
